@@ -504,6 +504,41 @@ def str_eq(ex, a, b):
                 if isinstance(nxt, Atom):
                     raise Unsupported("adjacent atoms in string equality")
                 continue
+            if isinstance(atom, FloatAtom) and atom.exact():
+                # a number rendered with a round-trip format against literal text: the maximal run of number characters must
+                # be the canonical rendering of some double L, and then the texts agree iff the value is L (the same
+                # injectivity `same` uses for two rendered numbers)
+                k = 0
+                while k < len(lit) and not atom.forbidden(lit[k]):
+                    k += 1
+                try:
+                    val = float(lit[:k])
+                except ValueError:
+                    return False
+                import math
+                if math.isnan(val) or math.isinf(val):
+                    raise Unsupported("equality of a rendered number with a non-finite literal")
+                canon = repr(val) if atom.fmt == "repr" else format(val, atom.fmt)
+                if canon != lit[:k]:
+                    return False
+                from fractions import Fraction
+                fr_ = Fraction(val)
+                conds.append(to_real(atom.term) == z3.RealVal(f"{fr_.numerator}/{fr_.denominator}"))
+                rest = lit[k:]
+                if isinstance(x, Atom):
+                    A.pop(0)
+                    Bs[0] = rest
+                    if not rest:
+                        Bs.pop(0)
+                else:
+                    Bs.pop(0)
+                    A[0] = rest
+                    if not rest:
+                        A.pop(0)
+                nxt = (A[0] if A else None) if isinstance(x, Atom) else (Bs[0] if Bs else None)
+                if isinstance(nxt, Atom):
+                    raise Unsupported("adjacent atoms in string equality")
+                continue
             if isinstance(atom, NameAtom) and atom.op.attrs.get("distinct_from_literals"):
                 return False      # stated assumption: such names differ from every literal the program compares them with
             raise Unsupported("equality of an opaque atom with literal text")
